@@ -52,9 +52,6 @@ pub mod ffi {
         let idx = idx.try_into().ok();
         match idx.and_then(|idx| this.get(idx)) {
             Some(src) => {
-                #[cfg(roto_verif)]
-                crate::verif::sched::point("escape", this.vid(), src.as_ptr() as usize);
-
                 // We got a pointer into the list, clone it into out at the correct alignment
 
                 // To leave this value in a valid state even if a panic happens
@@ -66,11 +63,7 @@ pub mod ffi {
                 // `out` must be a valid RotoOption<T>.
                 unsafe { out.cast::<u8>().write(1) };
 
-                #[cfg(roto_verif)]
-                crate::verif::sched::point("acquire", this.vid(), 0);
                 let raw = this.0.lock().unwrap();
-                #[cfg(roto_verif)]
-                crate::verif::sched::point("use", this.vid(), src.as_ptr() as usize);
                 let size = raw.vtable.size();
                 let alignment = raw.vtable.align();
                 let offset = 1usize.next_multiple_of(alignment);
@@ -253,11 +246,6 @@ pub mod boundary {
         /// Get the element at index `idx`
         pub fn get(&self, idx: usize) -> Option<T> {
             let ptr = self.inner.get(idx)?;
-
-            #[cfg(roto_verif)]
-            crate::verif::sched::point("escape", self.inner.vid(), ptr.as_ptr() as usize);
-            #[cfg(roto_verif)]
-            crate::verif::sched::point("use", self.inner.vid(), ptr.as_ptr() as usize);
 
             // SAFETY: The list has values of T::Transformed, which means that
             // this cast is valid.
